@@ -358,6 +358,17 @@ func (run *runner) topology(index int) {
 		}
 	}
 
+	// the same topology next to a configured fallback pool (pool.go); the
+	// results join the list, so every enforce verdict below applies to them too
+	poolResults, ok := run.poolStacks(w, results["off"])
+	for _, res := range poolResults {
+		results[res.cfg.Label] = res
+		order = append(order, res)
+	}
+	if !ok {
+		return
+	}
+
 	off, sh := results["off"], results["shadow"]
 	if off == nil || sh == nil || off.q1.reply == nil {
 		return
@@ -552,7 +563,7 @@ func (run *runner) topology(index int) {
 	// informational only (the statement does not relate enforce to off):
 	// an enforce first query whose tree crossed nothing, same IPv6 setting
 	for _, e := range order {
-		if e.cfg.Mode != "enforce" || !spec.Deterministic || e.cfg.V6 != off.cfg.V6 || e.q1.reply == nil || len(e.q1.Exhausted) > 0 {
+		if e.cfg.Mode != "enforce" || e.cfg.Pool || !spec.Deterministic || e.cfg.V6 != off.cfg.V6 || e.q1.reply == nil || len(e.q1.Exhausted) > 0 {
 			continue
 		}
 		if e.q1.outcome() == off.q1.outcome() {
@@ -665,7 +676,11 @@ func (run *runner) judgeReplies(w *world, res *stackResult, prior *stackResult) 
 			r.Count("unusual_rcode/"+obs.Rcode, 1)
 		}
 		if obs.Packets > 0 {
-			r.Distinct(fmt.Sprintf("%s|%s|%d", spec.shape(), cfg.Mode, cfg.outboundBudget()))
+			if cfg.Pool {
+				r.Distinct(fmt.Sprintf("%s|%s|%d|pool/%s", spec.shape(), cfg.Mode, cfg.outboundBudget(), cfg.PoolDim))
+			} else {
+				r.Distinct(fmt.Sprintf("%s|%s|%d", spec.shape(), cfg.Mode, cfg.outboundBudget()))
+			}
 		}
 		if cfg.Mode == "off" {
 			r.Max("max_packets_per_query_firewall_off", int64(obs.Packets))
